@@ -28,6 +28,9 @@ def run(ctx):
     mm = ctx.tlc("FileReader", "FileReader_mut_maint.cfg", timeout=1800, deadlock=False, name="FileReader/mutant (maintenance forgets the held-back tail)")
     if mm.ok:
         raise vlib.Infra("spec mutant M_MaintenanceKeepsTail of FileReader is not rejected")
+    mb = ctx.tlc("FileReader", "FileReader_mut_busy.cfg", timeout=1800, deadlock=False, name="FileReader/mutant (maintenance rewrites the offset of a job that is being read)")
+    if mb.ok:
+        raise vlib.Infra("spec mutant M_MaintenanceSkipsBusyJob of FileReader is not rejected")
     ctx.tlc_expect_ok("WorkerTails", "WorkerTails_ok.cfg", timeout=900, deadlock=False, name="WorkerTails/faithful")
     mut = ctx.tlc("WorkerTails", "WorkerTails_mut.cfg", timeout=900, deadlock=False, name="WorkerTails/mutant (tail aliases the worker's buffer)")
     if mut.ok or mut.violated != "TailsIntact":
